@@ -83,7 +83,7 @@ def _run_shard(pid: str, tier: str, seed: int, shard: int, nshards: int, outdir:
            "--shard", f"{shard}/{nshards}", "--out", out]
     t0 = time.time()
     try:
-        p = subprocess.run(cmd, cwd=VERIF, env=env.child_env(), capture_output=True, text=True,
+        p = subprocess.run(cmd, cwd=VERIF, env=dict(env.child_env(), VERIF_SCRATCH=outdir), capture_output=True, text=True,
                            timeout=timeout, check=False)
     except subprocess.TimeoutExpired:
         return {"shard": shard, "status": "watchdog", "wall": time.time() - t0}
